@@ -299,16 +299,16 @@ def reason_sig(r):
 CONFIGS = [(d, m, n) for d in (False, True) for m in (False, True) for n in (False, True)]
 
 
-def pr_core(v, dup, meta, nsmaps):
+def pr_core(v, dup, meta, nsmaps, length=None):
     s = S()
     b = s["lmap"].map({s["*print-dup*"]: dup, s["*print-meta*"]: meta, s["*print-namespace-maps*"]: nsmaps,
-                       s["*print-length*"]: None, s["*print-level*"]: None, s["*print-readably*"]: True})
+                       s["*print-length*"]: length, s["*print-level*"]: None, s["*print-readably*"]: True})
     with s["runtime"].bindings(b):
         return s["pr-str"](v)
 
 
-def pr_obj(v, dup, meta, nsmaps):
-    return S()["obj"].lrepr(v, human_readable=False, print_dup=dup, print_length=None, print_level=None,
+def pr_obj(v, dup, meta, nsmaps, length=None):
+    return S()["obj"].lrepr(v, human_readable=False, print_dup=dup, print_length=length, print_level=None,
                             print_meta=meta, print_namespace_maps=nsmaps, print_readably=True)
 
 
@@ -342,6 +342,17 @@ def check_value(rec, a, layers=("core", "obj"), configs=CONFIGS, cls=None, count
                 key = t1
             if t1 != t2:
                 raise Violation("print-not-deterministic", case, f"{t1!r} then {t2!r}")
+            if dup:
+                # *print-dup* output claims to be readable whatever *print-length* says (the printers skip the
+                # length limit under print-dup): the text must not be abbreviated
+                for n in (0, 1):
+                    try:
+                        tl = pr(v, dup, meta, nsm, n)
+                    except Exception as e:  # noqa
+                        raise Violation(f"printer-raises:{type(e).__name__}", case, repr(e))
+                    if tl != t1:
+                        raise Violation("print-dup-output-abbreviated-by-print-length", dict(case, print_length=n),
+                                        f"with *print-dup* true and *print-length* {n}: {tl!r}; without a length limit: {t1!r}")
             try:
                 forms, first = read_all(t1, layer)
             except Exception as e:  # noqa
